@@ -43,7 +43,17 @@ def mk(cls, **opts):
 def _psf_taps(kind, size, param, beta=1):
     """documented named point-spread functions: the stated profile sampled at the integer offsets -floor(size/2) .. ceil(size/2)-1 (exactly `size` taps), normalised to sum one"""
     k = np.arange(-(size // 2), size - size // 2, dtype=float)
-    f = np.exp(-0.5 * k ** 2 / param ** 2) if kind == 'gauss' else (1 + k ** 2 / param ** 2) ** (-beta)
+    if kind == 'defocus': f = (k ** 2 <= param ** 2).astype(float)       # out-of-focus blur: uniform on the disc of radius `param` around the centre
+    else: f = np.exp(-0.5 * k ** 2 / param ** 2) if kind == 'gauss' else (1 + k ** 2 / param ** 2) ** (-beta)
+    return f / f.sum()
+
+
+def _psf_taps2d(kind, size, param, beta=1):
+    k = np.arange(-(size // 2), size - size // 2, dtype=float)
+    X, Y = np.meshgrid(k, k)
+    if kind == 'defocus': f = (X ** 2 + Y ** 2 <= param ** 2).astype(float)
+    elif kind == 'gauss': f = np.exp(-0.5 * (X ** 2 + Y ** 2) / param ** 2)
+    else: f = (1 + (X ** 2 + Y ** 2) / param ** 2) ** (-beta)
     return f / f.sum()
 
 
@@ -97,7 +107,7 @@ def deconv1d(c, dim, BC, PSF, noise_kind, legacy=False):
 def deconv2d(c, dim, BC, PSF, noise_kind):
     tp, draws = c.pre
     x = c.vec('x', dim * dim)
-    P = PSF if isinstance(PSF, np.ndarray) else tp.Miscellaneous['PSF']
+    P = PSF if isinstance(PSF, np.ndarray) else _psf_taps2d(*PSF) if isinstance(PSF, tuple) else tp.Miscellaneous['PSF']      # named PSFs: taps from the documented profile
     if P.shape[0] % 2 == 1:
         c.eq('forward_model_is_documented_convolution', tp.model.forward(x), _ref2d(dim, P, BC) @ x, tol=1e-9, approx=True)
     _consistency(c, tp, draws, noise_kind, 0.05, x)
@@ -182,7 +192,7 @@ def jobs(tier):
     asym3 = np.array([0.5, 0.3, 0.2]); asym4 = np.array([0.4, 0.3, 0.2, 0.1])
     F1 = [f'{T}:Deconvolution1D.__init__', f'{T}:_getConvolutionOperator', 'cuqi.problem._problem:BayesianProblem.get_components']
     for BC in ('periodic', 'zero', 'Mirror', 'reflect', 'Nearest'):
-        named = (('gauss5', ('gauss', 5, 1.0)), ('gauss4', ('gauss', 4, 1.5)), ('moffat5', ('moffat', 5, 1.5))) + (() if q else (('moffat6', ('moffat', 6, 2.0)), ('gauss3', ('gauss', 3, 3.0))))
+        named = (('gauss5', ('gauss', 5, 1.0)), ('gauss4', ('gauss', 4, 1.5)), ('moffat5', ('moffat', 5, 1.5)), ('defocus5', ('defocus', 5, 1.5)), ('defocus4', ('defocus', 4, 1.2)), ('defocus5_radius0', ('defocus', 5, 0))) + (() if q else (('moffat6', ('moffat', 6, 2.0)), ('gauss3', ('gauss', 3, 3.0))))
         for (nm, PSF) in (('asym3', asym3), ('asym4', asym4)) + named:
             for nk in ('gaussian', 'scaledgaussian'):
                 if q and nk == 'scaledgaussian' and nm != 'asym3': continue
@@ -199,6 +209,11 @@ def jobs(tier):
         for nk in ('gaussian', 'scaledgaussian'):
             J.append(Job(f'Deconvolution2D:BC={BC}:PSF=asym3x3:noise={nk}', lambda c, BC=BC, nk=nk: deconv2d(c, 4, BC, a3, nk), 'Pbox', F2,
                          pre=mk('Deconvolution2D', dim=4, PSF=a3, BC=BC, noise_type=nk, noise_std=0.05, phantom=np.abs(np.arange(16.0).reshape(4, 4)) / 16 + 0.2), rtol=1e-7, timeout=600))
+    for (nm, PSF) in (('gauss3', ('gauss', 3, 1.0)), ('moffat5', ('moffat', 5, 1.5)), ('defocus5', ('defocus', 5, 1.5)), ('defocus3', ('defocus', 3, 1.0))):
+        for BC in ('periodic', 'zero'):
+            if q and BC == 'zero' and nm in ('gauss3', 'defocus3'): continue
+            J.append(Job(f'Deconvolution2D:BC={BC}:PSF={nm}:noise=gaussian', lambda c, BC=BC, PSF=PSF: deconv2d(c, 5, BC, PSF, 'gaussian'), 'Pbox', F2 + [f'{T}:_GaussPSF', f'{T}:_MoffatPSF', f'{T}:_DefocusPSF'],
+                         pre=mk('Deconvolution2D', dim=5, PSF=PSF[0], PSF_size=PSF[1], PSF_param=PSF[2], BC=BC, noise_type='gaussian', noise_std=0.05, phantom=np.abs(np.arange(25.0).reshape(5, 5)) / 25 + 0.2), rtol=1e-7, timeout=600))
     J.append(Job('Abel1D:dim=5', lambda c: abel(c, 5), 'Pbox', [f'{T}:Abel1D.__init__'], pre=mk('Abel1D', dim=5), rtol=1e-7))
     for ep in ((2.0,) if q else (0.5, 2.0, 3.0)):
         J.append(Job(f'Abel1D:dim=6:endpoint={ep}', lambda c, ep=ep: abel(c, 6, ep), 'Pbox', [f'{T}:Abel1D.__init__'], pre=mk('Abel1D', dim=6, endpoint=ep), rtol=1e-7))
